@@ -4,6 +4,7 @@ import Capella.Lemmas.IndexHref
 import Capella.Lemmas.IndexApi
 import Capella.Lemmas.AccessorApi
 import Capella.Lemmas.AccessorProps
+import Capella.Lemmas.AccessorRound5
 
 /-!
 # C03 — UUID and type lookups always agree with the actual model tree
@@ -159,6 +160,16 @@ theorem move_below_itself_changes_nothing (parent idx v : Nat) (s : State)
     (moveElem parent idx v s).val = .error .valueError ∧ Same s (moveElem parent idx v s).st :=
   moveElem_below_itself parent idx v s h
 
+/-- Round 5. Assigning a POD attribute through the API – `obj.name = …`, `obj.description = …` (HTML, whatever libxml2's
+repair makes of the value), a Bool, Int or Enum attribute – with whatever value, for whatever element, returning or
+raising (write-once attribute, wrong type, unknown enum member, XML-illegal text): no index dictionary of any fragment
+changes and no index instruction is issued.  (An attribute the index reads – an id, `href`, the type – is never written
+silently: the model declines such a call.) -/
+theorem pod_assignment_never_touches_indexes (t : Tables) (o : Nat) (d : Capella.Pods.Desc)
+    (rp : List (List Char × Option (List Char))) (v : PodLit) (s : State) :
+    (apiStep t (.podSetK o d rp v) s).st.ix = s.ix ∧ (apiStep t (.podSetK o d rp v) s).st.log = s.log :=
+  (ixkeep_apiStep_pod t o d rp v).keep s
+
 end Accessor
 
 -- Non-vacuity: a concrete two-step history whose preconditions hold.
@@ -192,6 +203,18 @@ example : (exAfter.frags.map (·.rows.map (·.attrs)), (lookup exAfter.ix "m").t
     = ([[[("id", "r")], [("id", "p")], [("id", "m"), ("name", "x")]]], some 3, none) := by decide +kernel
 example : (match (apiStep ⟨[exRow], []⟩ (.insert exRow 2 (some [3]) 0 .foreign) (beginCall exState [] [])).val with
     | .error .valueError => true | _ => false) = true := by decide +kernel
+-- Round 5: `obj.description = "<p>x</p>"` (HTMLStringPOD; the repair is an input) stores the repaired text; assigning the
+-- default of a BoolPOD removes the attribute (default elision); a Python `int` offered to a BoolPOD fails its assertion;
+-- none of them changes a dictionary.
+def exHtml : Capella.Pods.Desc := ⟨.html, "description".toList, true⟩
+def exBool : Capella.Pods.Desc := ⟨.bool, "abstract".toList, true⟩
+def exAfterH : State := (apiStep ⟨[exRow], []⟩ (.podSetK 3 exHtml [("<p>x".toList, some "<p>x</p>".toList)] (.str "<p>x")) (beginCall exState [] [])).st
+example : (exAfterH.frags.map (·.rows.map (·.attrs)), exAfterH.log.length)
+    = ([[[("id", "r")], [("id", "p")], [("id", "m"), ("description", "<p>x</p>")]]], 0) := by decide +kernel
+example : ((apiStep ⟨[exRow], []⟩ (.podSetK 3 exBool [] (.bool false)) (beginCall exAfterH [] [])).st.frags.map (·.rows.map (·.attrs)))
+    = [[[("id", "r")], [("id", "p")], [("id", "m"), ("description", "<p>x</p>")]]] := by decide +kernel
+example : (match (apiStep ⟨[exRow], []⟩ (.podSetK 3 exBool [] (.int 1)) (beginCall exState [] [])).val with
+    | .error .assertion => true | _ => false) = true := by decide +kernel
 end AccessorExample
 
 end Capella.Props.C03
